@@ -467,27 +467,19 @@ def run_c13_full(ctx):
     absorb_sim(ctx, results, "full")
     n = ctx.n(100, 6000)
     cnt = dict(cases=0, exceptions=0, violations=0)
-    for i in range(n * 2):
-        if cnt["cases"] >= n:
-            break
-        rng = random.Random(ctx.seed * 7907 + i)
-        spec = gen.gen_facility_theme(rng) if rng.random() < 0.7 else gen.gen_spec(rng, "full")
-        if not spec.get("components") or not nest_spec(rng, spec):
+    res = simstream.run_stream(ctx.seed + 99, n, "nested", [ctx.pid], want_lockstep=False)
+    for r in res:
+        if r.get("infra"):
+            ctx.infra.append("nested case %d: %s" % (r["index"], r["infra"]))
             continue
-        params = dict(gen.gen_params(rng, spec), maxTime=40)
         cnt["cases"] += 1
+        spec, params = simstream.make_case(ctx.seed + 99, r["index"], "nested")
         case = dict(stream="nested", spec=spec, params=params, nested=True)
-        try:
-            project, ix, model, pre, snaps, exc = run_real(spec, params)
-        except Exception as e:
-            ctx.infra.append("nested case %d: %r" % (i, e))
-            continue
-        if exc is not None:
+        if r["exc"] is not None:
             cnt["exceptions"] += 1
-            ctx.violations.append(dict(property="C13", what="simulate raised %s: %s" % (type(exc).__name__, exc), case=case))
+            ctx.violations.append(dict(property="C13", what="simulate raised %s" % r["exc"], case=case))
             continue
-        run = dict(pre=pre, snaps=snaps, final=snapshot(project, ix), exc=None)
-        for v in preds.pred_C13(model, params, run)[:1]:
+        for v in r["viol"][:1]:
             cnt["violations"] += 1
             v = dict(v)
             v["case"] = case
